@@ -771,7 +771,12 @@ class VarsManager(object):
         for name in self.complex_vars:
             self.std_polar(name)
 
-    def standard_complex(self):
+    def standard_complex(self, bounded=()):
+        """
+        Standardise the free, unconstrained polar complex variables.
+
+        :param bounded: names with a boundary that is not installed in `bnd_dic` (any more)
+        """
         for k, v in self.complex_vars.items():
             ## TODO complex with constrains
             if isinstance(v, list):
@@ -782,9 +787,15 @@ class VarsManager(object):
             for i in self.same_list:
                 if k + "r" in i or k + "i" in i:
                     has_constrains = True
-            if k + "r" in self.bnd_dic:
+            if k + "r" in self.bnd_dic or k + "r" in bounded:
                 has_constrains = True
-            if k + "i" in self.bnd_dic:
+            if k + "i" in self.bnd_dic or k + "i" in bounded:
+                has_constrains = True
+            # a fixed radius or phase keeps its value
+            if (
+                k + "r" not in self.trainable_vars
+                or k + "i" not in self.trainable_vars
+            ):
                 has_constrains = True
             if has_constrains:
                 continue
